@@ -26,39 +26,39 @@ Section Links.
     Hypothesis HI : Inv st.
 
     Let Hsym := wp_link_sym sch W _ _ _ _ Hl.
-
-    Lemma link_roots : root_of sch s = s /\ root_of sch os = os.
-    Proof. destruct (wp_link_root sch W _ _ _ _ Hl) as [[_ A] [_ B]]. split; assumption. Qed.
+    Let S := root_of sch s.
+    Let O := root_of sch os.
 
     (* a link field is neither a set-index field nor a back-reference set *)
-    Lemma not_setidx r f0 : In (CSetIdx f0) (cons_of sch r) -> ~ (r = s /\ f0 = lf) /\ ~ (r = os /\ f0 = of_).
+    Lemma not_setidx s0 f0 : In (CSetIdx f0) (cons_of sch s0) -> ~ (root_of sch s0 = S /\ f0 = lf) /\ ~ (root_of sch s0 = O /\ f0 = of_).
     Proof.
-      intros Hc. split; intros [-> ->].
-      - eapply (wp_disj_sl sch W); [exact Hc | exact Hl | reflexivity].
-      - eapply (wp_disj_sl sch W); [exact Hc | exact Hsym | reflexivity].
+      intros Hc. split; intros [E ->].
+      - eapply (wp_disj_sl sch W); [exact Hc | exact Hl | symmetry; exact E | reflexivity].
+      - eapply (wp_disj_sl sch W); [exact Hc | exact Hsym | symmetry; exact E | reflexivity].
     Qed.
-    Lemma not_backref s1 f1 t1 b1 nl1 : In (CFkIndex f1 t1 b1 nl1) (cons_of sch s1) -> ~ (t1 = s /\ b1 = lf) /\ ~ (t1 = os /\ b1 = of_).
+    Lemma not_backref s1 f1 t1 b1 nl1 : In (CFkIndex f1 t1 b1 nl1) (cons_of sch s1) ->
+      ~ (root_of sch t1 = S /\ b1 = lf) /\ ~ (root_of sch t1 = O /\ b1 = of_).
     Proof.
-      intros Hc. split; intros [-> ->].
-      - eapply (wp_disj_bl sch W); [exact Hc | exact Hl | reflexivity].
-      - eapply (wp_disj_bl sch W); [exact Hc | exact Hsym | reflexivity].
+      intros Hc. split; intros [E ->].
+      - eapply (wp_disj_bl sch W); [exact Hc | exact Hl | symmetry; exact E | reflexivity].
+      - eapply (wp_disj_bl sch W); [exact Hc | exact Hsym | symmetry; exact E | reflexivity].
     Qed.
 
     Lemma add_step : present sch st s i = true -> present sch st os t = true ->
       Inv (backref_add sch (backref_add sch st s i lf t) os t of_ i).
     Proof.
-      intros Hpi Hpt. destruct link_roots as [Hrs Hro].
+      intros Hpi Hpt.
       set (st1 := backref_add sch st s i lf t). set (st2 := backref_add sch st1 os t of_ i).
       assert (Hfc : ents_fc_eq st st2) by (eapply ents_fc_eq_trans; apply backref_add_fc).
       assert (Hp : forall s0 j, present sch st2 s0 j = present sch st s0 j) by (intros; apply present_fc; apply Hfc).
       assert (Hg : forall s0 j f, get_field sch st2 s0 j f = get_field sch st s0 j f) by (intros; apply get_field_fc; apply Hfc).
-      assert (Hei : get_ent st s i <> None) by (rewrite <- Hrs at 1; apply present_get_ent; exact Hpi).
-      assert (Het : get_ent st os t <> None) by (rewrite <- Hro at 1; apply present_get_ent; exact Hpt).
-      assert (Het1 : get_ent st1 os t <> None).
-      { intros Hn. apply Het. apply (get_ent_none_fc st st1 os t (backref_add_fc sch st s i lf t)). exact Hn. }
+      assert (Hei : get_ent st S i <> None) by (apply present_get_ent; exact Hpi).
+      assert (Het : get_ent st O t <> None) by (apply present_get_ent; exact Hpt).
+      assert (Het1 : get_ent st1 O t <> None).
+      { intros Hn. apply Het. apply (get_ent_none_fc st st1 O t (backref_add_fc sch st s i lf t)). exact Hn. }
       assert (Hes : forall r j f z, In z (eset st2 r j f) <->
-                 In z (eset st r j f) \/ (r = s /\ j = i /\ f = lf /\ z = t) \/ (r = os /\ j = t /\ f = of_ /\ z = i)).
-      { intros. unfold st2, st1. rewrite !eset_backref_add, Hrs, Hro. split.
+                 In z (eset st r j f) \/ (r = S /\ j = i /\ f = lf /\ z = t) \/ (r = O /\ j = t /\ f = of_ /\ z = i)).
+      { intros. unfold st2, st1. rewrite !eset_backref_add. fold S O. split.
         - intros [[A|[A [B [C [D _]]]]]|[A [B [C [D _]]]]]; [left; exact A | right; left; repeat split; assumption | right; right; repeat split; assumption].
         - intros [A|[[A [B [C D]]]|[A [B [C D]]]]]; [left; left; exact A | left; right; subst; repeat split; exact Hei
                                                     | right; subst; repeat split; exact Het1]. }
@@ -67,47 +67,50 @@ Section Links.
       - intros r f v x Hx. unfold st2, st1 in Hx. rewrite !backref_add_uidx in Hx.
         destruct (HU r f v x Hx) as [s0 [nl [A [B [C [D E]]]]]]. exists s0, nl. unfold NoTraceInv.fbytes in *. rewrite Hp, Hg. repeat split; assumption.
       - intros r f v x Hx. unfold sbucket, st2, st1 in Hx. rewrite !backref_add_sidx in Hx.
-        destruct (HS r f v x Hx) as [A B]. split; [exact A|]. apply Hes. left. exact B.
+        destruct (HS r f v x Hx) as [s0 [A0 [A [P B]]]]. exists s0. rewrite Hp. split; [exact A0|]. split; [exact A|]. split; [exact P|]. apply Hes. left. exact B.
       - intros s1 f1 t1 b1 nl1 ti x Hin Hx. destruct (not_backref _ _ _ _ _ Hin) as [N1 N2].
         apply Hes in Hx as [Hx|[[A [_ [B _]]]|[A [_ [B _]]]]]; [|exfalso; apply N1; split; assumption|exfalso; apply N2; split; assumption].
         unfold NoTraceInv.fbytes. rewrite Hp, Hg. apply (HB s1 f1 t1 b1 nl1 ti x Hin Hx).
-      - intros s1 f1 t1 b1 nl1 y v Hin Hgn Hpy Hf Hn. rewrite Hp in Hpy. rewrite Hg in Hf. apply Hes. left. eapply HF; eauto.
-      - intros s1 f1 t1 nl1 y v Hin Hgn Hpy Hf Hn. rewrite Hp in Hpy. rewrite Hg in Hf. intros Hnone.
-        apply (HC s1 f1 t1 nl1 y v Hin Hgn Hpy Hf Hn). apply (get_ent_none_fc st st2 t1 v Hfc). exact Hnone.
-      - intros s1 lf1 os1 of1 x t0 Hin _ Ht0. apply Hes. apply Hes in Ht0 as [Ht0|[[-> [-> [-> ->]]]|[-> [-> [-> ->]]]]].
-        + left. eapply HL; eauto.
-        + destruct (wp_link_uniq sch W _ _ _ _ _ _ Hin Hl) as [-> ->]. right. right. repeat split.
-        + destruct (wp_link_uniq sch W _ _ _ _ _ _ Hin Hsym) as [-> ->]. right. left. repeat split.
+      - intros s1 f1 t1 b1 nl1 y v Hin Hgn Hpy Hf Hn. rewrite Hp in Hpy. rewrite Hg in Hf. rewrite Hp.
+        destruct (HF s1 f1 t1 b1 nl1 y v Hin Hgn Hpy Hf Hn) as [A B]. split; [apply Hes; left; exact A | exact B].
+      - intros s1 f1 t1 nl1 y v Hin Hgn Hpy Hf Hn. rewrite Hp in Hpy. rewrite Hg in Hf. rewrite Hp.
+        apply (HC s1 f1 t1 nl1 y v Hin Hgn Hpy Hf Hn).
+      - intros s1 lf1 os1 of1 x t0 Hin _ Ht0. rewrite !Hp. apply Hes in Ht0 as [Ht0|[[E1 [-> [-> ->]]]|[E1 [-> [-> ->]]]]].
+        + destruct (HL s1 lf1 os1 of1 x t0 Hin (fun q => q) Ht0) as [A [B C]]. split; [apply Hes; left; exact A | split; assumption].
+        + destruct (wp_link_uniq sch W _ _ _ _ _ _ _ Hin Hl E1) as [-> [-> ->]]. split; [apply Hes; right; right; repeat split | split; assumption].
+        + destruct (wp_link_uniq sch W _ _ _ _ _ _ _ Hin Hsym E1) as [-> [-> ->]]. split; [apply Hes; right; left; repeat split | split; assumption].
     Qed.
 
     Lemma remove_step : Inv (backref_del sch (backref_del sch st s i lf t) os t of_ i).
     Proof.
-      destruct link_roots as [Hrs Hro].
       set (st1 := backref_del sch st s i lf t). set (st2 := backref_del sch st1 os t of_ i).
       assert (Hfc : ents_fc_eq st st2) by (eapply ents_fc_eq_trans; apply backref_del_fc).
       assert (Hp : forall s0 j, present sch st2 s0 j = present sch st s0 j) by (intros; apply present_fc; apply Hfc).
       assert (Hg : forall s0 j f, get_field sch st2 s0 j f = get_field sch st s0 j f) by (intros; apply get_field_fc; apply Hfc).
       assert (Hes : forall r j f z, In z (eset st2 r j f) <->
-                 In z (eset st r j f) /\ ~ (r = s /\ j = i /\ f = lf /\ z = t) /\ ~ (r = os /\ j = t /\ f = of_ /\ z = i)).
-      { intros. unfold st2, st1. rewrite !eset_backref_del, Hrs, Hro. tauto. }
+                 In z (eset st r j f) /\ ~ (r = S /\ j = i /\ f = lf /\ z = t) /\ ~ (r = O /\ j = t /\ f = of_ /\ z = i)).
+      { intros. unfold st2, st1. rewrite !eset_backref_del. fold S O. tauto. }
       destruct HI as [[HU [HS [HB [HF [HC HL]]]]] HFS]. split; [|eapply FieldsStr_fc; eauto].
       refine (conj _ (conj _ (conj _ (conj _ (conj _ _))))).
       - intros r f v x Hx. unfold st2, st1 in Hx. rewrite !backref_del_uidx in Hx.
         destruct (HU r f v x Hx) as [s0 [nl [A [B [C [D E]]]]]]. exists s0, nl. unfold NoTraceInv.fbytes in *. rewrite Hp, Hg. repeat split; assumption.
       - intros r f v x Hx. unfold sbucket, st2, st1 in Hx. rewrite !backref_del_sidx in Hx.
-        destruct (HS r f v x Hx) as [A B]. split; [exact A|]. destruct (not_setidx r f A) as [N1 N2]. apply Hes.
-        split; [exact B|]. split; intros [Q1 [_ [Q2 _]]]; [apply N1 | apply N2]; split; assumption.
+        destruct (HS r f v x Hx) as [s0 [A0 [A [P B]]]]. exists s0. rewrite Hp. split; [exact A0|]. split; [exact A|]. split; [exact P|].
+        destruct (not_setidx s0 f A) as [N1 N2]. apply Hes.
+        split; [exact B|]. split; intros [Q1 [_ [Q2 _]]]; [apply N1 | apply N2]; split; congruence.
       - intros s1 f1 t1 b1 nl1 ti x Hin Hx. apply Hes in Hx as [Hx _].
         unfold NoTraceInv.fbytes. rewrite Hp, Hg. apply (HB s1 f1 t1 b1 nl1 ti x Hin Hx).
       - intros s1 f1 t1 b1 nl1 y v Hin Hgn Hpy Hf Hn. rewrite Hp in Hpy. rewrite Hg in Hf.
-        destruct (not_backref _ _ _ _ _ Hin) as [N1 N2]. apply Hes.
-        split; [eapply HF; eauto|]. split; intros [Q1 [_ [Q2 _]]]; [apply N1 | apply N2]; split; assumption.
-      - intros s1 f1 t1 nl1 y v Hin Hgn Hpy Hf Hn. rewrite Hp in Hpy. rewrite Hg in Hf. intros Hnone.
-        apply (HC s1 f1 t1 nl1 y v Hin Hgn Hpy Hf Hn). apply (get_ent_none_fc st st2 t1 v Hfc). exact Hnone.
-      - intros s1 lf1 os1 of1 x t0 Hin _ Ht0. apply Hes in Ht0 as [Ht0 [M1 M2]]. apply Hes.
-        split; [eapply HL; eauto|]. pose proof (wp_link_sym sch W _ _ _ _ Hin) as Hsym1. split.
-        + intros [-> [-> [-> ->]]]. destruct (wp_link_uniq sch W _ _ _ _ _ _ Hsym1 Hl) as [-> ->]. apply M2. repeat split.
-        + intros [-> [-> [-> ->]]]. destruct (wp_link_uniq sch W _ _ _ _ _ _ Hsym1 Hsym) as [-> ->]. apply M1. repeat split.
+        destruct (not_backref _ _ _ _ _ Hin) as [N1 N2]. rewrite Hp.
+        destruct (HF s1 f1 t1 b1 nl1 y v Hin Hgn Hpy Hf Hn) as [A B]. split; [|exact B]. apply Hes.
+        split; [exact A|]. split; intros [Q1 [_ [Q2 _]]]; [apply N1 | apply N2]; split; assumption.
+      - intros s1 f1 t1 nl1 y v Hin Hgn Hpy Hf Hn. rewrite Hp in Hpy. rewrite Hg in Hf. rewrite Hp.
+        apply (HC s1 f1 t1 nl1 y v Hin Hgn Hpy Hf Hn).
+      - intros s1 lf1 os1 of1 x t0 Hin _ Ht0. apply Hes in Ht0 as [Ht0 [M1 M2]]. rewrite !Hp.
+        destruct (HL s1 lf1 os1 of1 x t0 Hin (fun q => q) Ht0) as [A [B C]]. split; [|split; assumption]. apply Hes.
+        split; [exact A|]. pose proof (wp_link_sym sch W _ _ _ _ Hin) as Hsym1. split.
+        + intros [E1 [-> [-> ->]]]. destruct (wp_link_uniq sch W _ _ _ _ _ _ _ Hsym1 Hl E1) as [-> [-> ->]]. apply M2. repeat split.
+        + intros [E1 [-> [-> ->]]]. destruct (wp_link_uniq sch W _ _ _ _ _ _ _ Hsym1 Hsym E1) as [-> [-> ->]]. apply M1. repeat split.
     Qed.
   End Step.
 
